@@ -1673,6 +1673,33 @@ func c17(c *fw.Ctx) {
 		}
 	}
 
+	// 5. large frames: sizes around the powers of two and camera-like frames (the exhaustive shapes
+	// end at 200 / 100; row buffers, block grids and strides of real frames are far larger)
+	large := [][2]int{{255, 3}, {256, 2}, {257, 5}, {3, 511}, {512, 4}, {513, 2}, {1000, 3}, {1024, 1}, {1025, 2}, {2, 2049}, {4096, 1}, {4097, 2}, {320, 240}, {640, 480}, {481, 641}, {1280, 720}}
+	for _, wh := range large {
+		for kind := 0; kind < c17NKinds; kind++ {
+			wh, kind := wh, kind
+			c.Run(fmt.Sprintf("large/view/%s/%dx%d", c17KindName[kind], wh[0], wh[1]), func(r *fw.Rec) {
+				for k := 0; k < c.Pick(1, 4); k++ {
+					if !c17ViewSequence(r, kind, wh[0], wh[1], false) {
+						return
+					}
+					r.Tally("large_view_sequences")
+				}
+			})
+		}
+		c.Run(fmt.Sprintf("large/bin/%dx%d", wh[0], wh[1]), func(r *fw.Rec) {
+			for k := 0; k < c.Pick(2, 6); k++ {
+				if !c17Bilevel(r, wh[0], wh[1], false) {
+					return
+				}
+				r.Tally("large_bin_images")
+			}
+		})
+	}
+	c.Floor("large_view_sequences", 70)
+	c.Floor("large_bin_images", 28)
+
 	rp := int64(reps)
 	c.Floor("view_sequences", 5*40000*rp*9/10)
 	for _, k := range c17KindName {
